@@ -305,6 +305,39 @@ theorem gs_is_sphere_tm (τ' l : ℝ) (hh : 0 < τ' ^ 2 + Real.cos l ^ 2) :
       ring
 
 
+/-- **the derivative of the Gauss–Schreiber map**: any differentiable `Z` with `sin Z(v) = tanh v` near `w` and `cos Z(w)·cosh w = 1` (which
+    `ζ'` as coded satisfies, `gs_is_sphere_tm`) has `dZ/dw = 1/cosh w` at `w`.  Hence the coded `γ'` (= `arg cosh w`) is `−arg(dζ'/dw)` and the coded
+    `hypot(τ', cos λ)` (= `|cosh w|`) is `1/|dζ'/dw|`. -/
+theorem gs_derivative (Z : ℂ → ℂ) (w Z' : ℂ) (hZ : HasDerivAt Z Z' w)
+    (hs : ∀ᶠ v in nhds w, Complex.sin (Z v) = Complex.tanh v) (hc : Complex.cos (Z w) * Complex.cosh w = 1) :
+    Z' = 1 / Complex.cosh w := by
+  have hne : Complex.cosh w ≠ 0 := by
+    intro h0; rw [h0, mul_zero] at hc; exact zero_ne_one hc
+  have h1 : HasDerivAt (fun v => Complex.sin (Z v)) (Complex.cos (Z w) * Z') w := hZ.csin
+  have h2 : HasDerivAt Complex.tanh ((Complex.cosh w * Complex.cosh w - Complex.sinh w * Complex.sinh w) / Complex.cosh w ^ 2) w := by
+    have := (Complex.hasDerivAt_sinh w).div (Complex.hasDerivAt_cosh w) hne
+    refine this.congr_of_eventuallyEq ?_
+    filter_upwards with v
+    exact Complex.tanh_eq_sinh_div_cosh v
+  have h3 : HasDerivAt Complex.tanh (Complex.cos (Z w) * Z') w := h1.congr_of_eventuallyEq (hs.mono fun v hv => hv.symm)
+  have huniq := h3.unique h2
+  have hcs : Complex.cosh w * Complex.cosh w - Complex.sinh w * Complex.sinh w = 1 := by
+    have := Complex.cosh_sq w; rw [sq] at this
+    have h4 : Complex.sinh w * Complex.sinh w = Complex.sinh w ^ 2 := (sq _).symm
+    rw [this, h4]; ring
+  rw [hcs] at huniq
+  have hcos : Complex.cos (Z w) = 1 / Complex.cosh w := by
+    field_simp; exact hc
+  rw [hcos] at huniq
+  field_simp at huniq ⊢
+  have : Z' * Complex.cosh w ^ 2 = Complex.cosh w := by
+    calc Z' * Complex.cosh w ^ 2 = Complex.cosh w * (Z' * Complex.cosh w) := by ring
+      _ = Complex.cosh w := by rw [show Z' * Complex.cosh w = 1 from by linear_combination huniq]; ring
+  have h5 : Complex.cosh w * (Z' * Complex.cosh w - 1) = 0 := by linear_combination this
+  rcases mul_eq_zero.mp h5 with h | h
+  · exact absurd h hne
+  · linear_combination h
+
 /-! ## 3. `Forward` and `Reverse` kernels: position, convergence and scale -/
 
 theorem atan2_real' (y x : ℝ) : RealLike.atan2 y x = Complex.arg ⟨x, y⟩ := rfl
